@@ -100,7 +100,7 @@ def _zp2tf(zeros, poles, K=1, var=None):
     else:
         zz = [(var - z) ** zeros[z] for z in zeros]
 
-    if isinstance(zeros, (tuple, list)):
+    if isinstance(poles, (tuple, list)):
         pp = [1 / (var - p) for p in poles]
     else:
         pp = [1 / (var - p) ** poles[p] for p in poles]
@@ -139,7 +139,7 @@ def _tc2tf(zeros, poles, K=1, var=None):
                 zz.append((var / -z + 1) ** zeros[z])
                 K *= z ** o
 
-    if isinstance(zeros, (tuple, list)):
+    if isinstance(poles, (tuple, list)):
         for p in poles:
             if p == 0:
                 pp.append(p)
